@@ -127,6 +127,26 @@ int main(int argc, char **argv) {
            std::to_string(ss.m_impl.owner(key));
     }
     line(s);
+    // "stored only on its owner, seen exactly once": fill the containers from rank 0 (+ unions and lookups for the
+    // disjoint_set, whose lookups re-parent items), then every rank lists what it holds locally
+    if (me == 0) {
+      for (int k : keys) { mi.async_insert(k, k + 1); ds.async_union(k, keys[0]); }
+      for (int k = 0; k < 30; ++k) { std::string key = "key" + std::to_string(k * k) + (k % 3 ? "" : "_x"); ms.async_insert(key, k); ss.async_insert(key); }
+    }
+    world.barrier();
+    auto reps = ds.all_find(keys);
+    world.barrier();
+    s = "HP " + std::to_string(R) + " " + std::to_string(me) + " :";
+    for (auto &kv : mi.m_impl.m_local_map) s += " mi," + std::to_string(kv.first) + "," + std::to_string(mi.owner(kv.first));
+    for (auto &kv : ms.m_impl.m_local_map) s += " ms," + std::to_string(std::hash<std::string>{}(kv.first)) + "," + std::to_string(ms.owner(kv.first));
+    for (auto &k : ss.m_impl.m_local_set) s += " ss," + std::to_string(std::hash<std::string>{}(k)) + "," + std::to_string(ss.m_impl.owner(k));
+    for (auto &kv : ds.m_impl.m_local_item_parent_map) s += " ds," + std::to_string(kv.first) + "," + std::to_string(ds.m_impl.owner(kv.first));
+    line(s);
+    size_t n_for_all = 0;
+    ds.for_all([&](const int &item, const int &rep) { ++n_for_all; });
+    line("HQ " + std::to_string(R) + " " + std::to_string(me) + " : " + std::to_string(mi.size()) + " " + std::to_string(ms.size()) + " " +
+         std::to_string(ss.size()) + " " + std::to_string(ds.size()) + " " + std::to_string(n_for_all));
+    world.cf_barrier();
   }
   return 0;
 }
